@@ -24,6 +24,11 @@ type item struct {
 	id  int
 	key string
 	due time.Time
+	// follow-up work the callback of this item does on the SAME processor while it runs (a periodic job
+	// re-arming itself, a job cancelling another one): 0 = none
+	follow    time.Duration // enqueue a new item due follow after the callback's instant ...
+	followKey string        // ... under this key (may be the item's own key)
+	followDeq string        // dequeue this key
 }
 
 func (i *item) Key() string              { return i.key }
@@ -38,6 +43,10 @@ type op struct {
 	Hook string        `json:"hook,omitempty"` // arm: park the loop at the N-th next hit of Hook
 	N    int           `json:"n,omitempty"`
 	G    int           `json:"g,omitempty"` // racing mode: goroutine
+	// enq only: what the item's callback does on the same processor while it runs
+	Follow time.Duration `json:"follow,omitempty"` // enqueue a follow-up item due Follow later ...
+	FKey   string        `json:"fkey,omitempty"`   // ... under this key ("" = the item's own key)
+	FDeq   string        `json:"fdeq,omitempty"`   // dequeue this key
 }
 
 // far-future scheduled times (legal: an item parked for "never"); they cannot be written as an offset
@@ -62,6 +71,9 @@ func (o op) String() string {
 	case "enq":
 		if o.Off == farOff2300 || o.Off == farOff9999 {
 			return fmt.Sprintf("enq(%s,@%d)", o.Key, dueFor(o.Off).Year())
+		}
+		if o.Follow != 0 || o.FDeq != "" {
+			return fmt.Sprintf("enq(%s,+%v,cb:enq(%s,+%v)deq(%s))", o.Key, o.Off, o.FKey, o.Follow, o.FDeq)
 		}
 		return fmt.Sprintf("enq(%s,+%v)", o.Key, o.Off)
 	case "deq":
@@ -168,6 +180,14 @@ func (w *world) callback(it *item) {
 	c := &cbRec{it: it, s1: w.s1, s2: w.s2, start: w.stamp(), now: time.Now()}
 	w.cbs = append(w.cbs, c)
 	w.mu.Unlock()
+	if it.follow != 0 {
+		rec.Count("callback.reentrant_enqueue", 1)
+		w.enqItem(it.followKey, it.follow, op{})
+	}
+	if it.followDeq != "" {
+		rec.Count("callback.reentrant_dequeue", 1)
+		w.deq(it.followDeq)
+	}
 	if w.gateOn.Load() {
 		<-w.gate
 	}
@@ -177,10 +197,15 @@ func (w *world) callback(it *item) {
 	w.inCb.Add(-1)
 }
 
-func (w *world) enq(key string, off time.Duration) {
+func (w *world) enq(key string, off time.Duration) { w.enqItem(key, off, op{}) }
+
+func (w *world) enqItem(key string, off time.Duration, o op) {
 	w.mu.Lock()
 	w.nextI++
-	it := &item{id: w.nextI, key: key, due: dueFor(off)}
+	it := &item{id: w.nextI, key: key, due: dueFor(off), follow: o.Follow, followKey: o.FKey, followDeq: o.FDeq}
+	if it.follow != 0 && it.followKey == "" {
+		it.followKey = key
+	}
 	if off == farOff2300 || off == farOff9999 {
 		rec.Count("enq.far_future_item", 1)
 	}
@@ -472,6 +497,20 @@ func genRandom(rng *mon.RNG) ([]op, bool) {
 		case r < 5:
 			// an item scheduled centuries ahead: it never runs and must not get in the way of the others
 			ops = append(ops, op{Kind: "enq", Key: rng.PickStr(keys...), Off: []time.Duration{farOff2300, farOff9999}[rng.Intn(2)]})
+		case r < 12:
+			// an item whose callback works on the processor itself: re-arms its own key, arms another key,
+			// or cancels another key
+			o := op{Kind: "enq", Key: rng.PickStr(keys...), Off: offs[rng.Intn(len(offs))]}
+			switch rng.Intn(3) {
+			case 0:
+				o.Follow = []time.Duration{100 * time.Microsecond, time.Millisecond, 10 * time.Millisecond, time.Second}[rng.Intn(4)]
+			case 1:
+				o.Follow = []time.Duration{time.Millisecond, 10 * time.Millisecond}[rng.Intn(2)]
+				o.FKey = rng.PickStr(keys...)
+			default:
+				o.FDeq = rng.PickStr(keys...)
+			}
+			ops = append(ops, o)
 		case r < 40:
 			ops = append(ops, op{Kind: "enq", Key: rng.PickStr(keys...), Off: offs[rng.Intn(len(offs))]})
 		case r < 55:
@@ -496,7 +535,7 @@ func TestCheck(t *testing.T) {
 	rec = mon.Open("C06")
 	defer rec.Close()
 	rec.Note("rule", "a case is one history run against the real Processor in a synctest bubble: (directed) the loop parked at each hook point x hit 1-2 x each placed operation kind (pairs of kinds as well); (random) 4-24 seeded Enqueue/Dequeue/Sleep/Close operations in lock-step with seeded hook parking; (racing) 2-4 goroutines issuing operations at the same virtual instants. Non-trivial = at least one callback was observed or an item was removed before running; distinct = distinct operation list.")
-	rec.Note("require", []string{"park.loop.start", "park.loop.empty", "park.loop.peeked", "park.loop.armed", "park.loop.fired", "park.exec.popped", "callbacks", "enq.far_future_item", "placed.close", "placed.enq", "placed.deq", "racing.same_instant_ops", "gated.close_waited_for_callback", "placed.second_close"})
+	rec.Note("require", []string{"park.loop.start", "park.loop.empty", "park.loop.peeked", "park.loop.armed", "park.loop.fired", "park.exec.popped", "callbacks", "callback.reentrant_enqueue", "callback.reentrant_dequeue", "enq.far_future_item", "placed.close", "placed.enq", "placed.deq", "racing.same_instant_ops", "gated.close_waited_for_callback", "placed.second_close"})
 	ps := plans()
 	rec.Planned(len(ps))
 	for idx, pl := range ps {
@@ -599,7 +638,7 @@ func runSeq(t *testing.T, idx int, pl plan) {
 					rec.Count("placed.enq", 1)
 					parkOps = append(parkOps, "enq")
 				}
-				w.enq(o.Key, o.Off)
+				w.enqItem(o.Key, o.Off, o)
 			case "deq":
 				if placedMode {
 					rec.Count("placed.deq", 1)
